@@ -30,7 +30,10 @@ func runOn(v *vm.VM, prog *vm.Program, m Mode, e *Env, lg *Log) Got {
 	var err error
 	env := envValue(e, m)
 	pmsg, hang := guarded(func() { out, err = v.Run(prog, env) })
-	g := Got{Stage: "run", Calls: append([]CallRec{}, lg.Calls...)}
+	g := Got{Stage: "run"}
+	if lg != nil {
+		g.Calls = append([]CallRec{}, lg.Calls...)
+	}
 	if pmsg != "" || hang {
 		g.Panic, g.Hang = pmsg, hang
 		return g
